@@ -5,7 +5,8 @@ ID = 'C19'
 LEVEL_TEXT = ('bounded symbolic execution (CrossHair/z3) of the real relpath/buildpath/relname '
               'builtins on a real StackContext for every relative path string up to the bound (all '
               'Unicode, incl. ../ and backslashes) in submodule directories of depth 0-3; of the '
-              'export stack over every history of include/export/return operations (depth <= 3); of '
+              'export stack over every history of include/export/return/failing-submodule operations '
+              '(depth <= 3); of '
               'the enable/with toggle naming for every option name; and of '
               'add_user_argument + argparse for every value string in the plain and --x- spellings')
 LEVEL_NOTE = ('claimed for the path and argument kernels: globals isolation between scripts is a '
